@@ -63,7 +63,7 @@ def rule_once(prog):
         for cb, ct in calls:
             after = g.reach_from(ct["t"]) if ct["t"] is not None else set()
             if any(b in after for b in trues) or not any(b in after for b in falses):
-                ok = False
+                ok = _fires_only_when_result_false(g, cb)
         res.inst("fires-then-removed@%s" % g.norm.split("::")[-1], ok=ok)
         res.oblige(ok)
         if not ok:
@@ -71,6 +71,41 @@ def rule_once(prog):
     if not found:
         res.viol("anchors", f.loc, "tick_idle_timeout no longer calls handle_fakekey_action")
     return res
+
+
+def _fires_only_when_result_false(g, cb):
+    """`let keep = idle < wanted; if !keep { fire(); } keep`: the closure returns a named bool, and the call is only reachable
+    over the edge of a test of that very bool on which it is false"""
+    rets = [st["rv"]["a"]["l"] for bi, si, st in g.all_rvalues() if st["p"]["l"] == 0 and not proj(st["p"]) and st["rv"]["k"] == "use"
+            and is_place(st["rv"]["a"]) and not proj(st["rv"]["a"])]
+    if len(set(rets)) != 1:
+        return False
+    keep = rets[0]
+    for sb in sorted(g.reachable()):
+        t = g.term(sb)
+        if t["k"] != "switch" or t.get("dty") != "bool" or not is_place(t["d"]) or proj(t["d"]) or not g.dominates(sb, cb):
+            continue
+        l, neg = t["d"]["l"], False
+        for _ in range(4):
+            if l == keep:
+                break
+            d = g.single_def(l)
+            if d and d[2] == "assign" and d[3]["k"] == "use" and is_place(d[3]["a"]) and not proj(d[3]["a"]):
+                l = d[3]["a"]["l"]
+            elif d and d[2] == "assign" and d[3]["k"] == "un" and d[3]["op"] == "Not" and is_place(d[3]["a"]) and not proj(d[3]["a"]):
+                l, neg = d[3]["a"]["l"], not neg
+            else:
+                break
+        if l != keep:
+            continue
+        zero = [tb for v, tb in t["ts"] if v == 0]
+        false_edge = (t["o"] if neg else (zero[0] if zero else None))      # successor taken when `keep` is false
+        true_edge = ((zero[0] if zero else None) if neg else t["o"])
+        if false_edge is None or true_edge is None:
+            continue
+        if cb in g.reach_from(false_edge, avoid=[sb]) and cb not in g.reach_from(true_edge, avoid=[sb]):
+            return True
+    return False
 
 
 def rule_rearm(prog):
